@@ -933,3 +933,5 @@ seed("c05-pivot-threshold-panic", "C05", TR, '            if beta == T::zero() {
      '            if beta == T::zero() { panic!( "Tridiagonal error: zero pivot." ); }\n            if beta * beta == gamma[j] { panic!( "Tridiagonal error: degenerate pivot." ); }', "rejects-only-shapes/solve")
 seed("c04-det-guard-in-solve", "C04", BD, "        // LU decomposition\n        let mut au = self.compact.clone();",
      '        if self.det() == T::zero() { panic!( "Banded matrix solve error: singular matrix." ); }\n        // LU decomposition\n        let mut au = self.compact.clone();', "rejects-only-shapes/solve")
+seed("c10-newton-by-second-derivative", "C10", PM, "            if b.abs() <= err { return; }", "            if b.abs() <= err { return; }\n            let _newton = *x - b / f;", "newton-correction")
+seed("n-c10-newton-by-first-derivative", "C10", PM, "            if b.abs() <= err { return; }", "            if b.abs() <= err { return; }\n            let _newton = if d.abs() > 0.0 { *x - b / d } else { *x };", "SILENT", "neutral: the value over the first derivative is Newton's step")
